@@ -998,8 +998,17 @@ def mpf_acosh(x, prec, rnd=round_fast):
     wp = prec + 15
     if mpf_cmp(x, fone) == -1:
         raise ComplexResult("acosh(x) is real only for x >= 1")
-    q = mpf_sqrt(mpf_add(mpf_mul(x,x), fnone, wp), wp)
-    return mpf_log(mpf_add(x, q, wp), prec, rnd)
+    if x[2]+x[3] > 1:
+        q = mpf_sqrt(mpf_add(mpf_mul(x,x), fnone, wp), wp)
+        return mpf_log(mpf_add(x, q, wp), prec, rnd)
+    # 1 <= x < 2: with t = x-1 (exact), acosh(x) = log(1 + t + sqrt(t*(x+1))).
+    # The sum 1+u is formed exactly; mpf_log compensates the cancellation
+    # for arguments close to 1.
+    t = mpf_sub(x, fone)
+    if t == fzero:
+        return fzero
+    u = mpf_add(t, mpf_sqrt(mpf_mul(t, mpf_add(x, fone), wp), wp), wp)
+    return mpf_log(mpf_add(fone, u), prec, rnd)
 
 def mpf_atanh(x, prec, rnd=round_fast):
     # atanh(x) = log((1+x)/(1-x))/2
